@@ -132,7 +132,10 @@ def systematic_resample(log_weights: jnp.ndarray, n_samples: int) -> jnp.ndarray
     positions = (jnp.arange(n_samples) + u) / n_samples
     cumsum = jnp.cumsum(weights)
 
-    indices = jnp.searchsorted(cumsum, positions)
+    # In floating point the cumulative weights can end slightly below 1 while the
+    # last position rounds up to it; keep every position inside the cumulative
+    # range so that it selects the last particle of positive weight, not index N.
+    indices = jnp.searchsorted(cumsum, jnp.minimum(positions, cumsum[-1]))
     return indices
 
 
